@@ -88,7 +88,7 @@ struct LineWorker {
 ENTRY unsigned verif_lines(const char* data, unsigned len, const unsigned* cuts, unsigned ncuts, unsigned char* log, unsigned logcap) {
     env_init(data, len, cuts, ncuts, log, logcap);
     LineWorker w;
-    line_by_line(w);
+    try { line_by_line(w); } catch (const std::exception&) { record("<EXC>", 5); }
     return g_outlen;
 }
 
